@@ -14,6 +14,7 @@ Assumed contracts (trusted base; every use is recorded under its `dep:` name in 
   * dataclasses.replace(obj, **kw): `type(obj)(**{f: getattr(obj, f) for every init field f, overridden by kw})`;
     TypeError for a name that is not a field.  obj is not modified.
   * dataclasses.dataclass(frozen=True): instances cannot be assigned to after __init__ (FrozenInstanceError).
+  * dataclasses.fields(obj): the declared fields in order (only .name is used).
   * dataclasses.asdict(obj): dict field-name -> value where values that are themselves dataclass instances are
     converted to dicts recursively, lists/tuples/dicts are rebuilt recursively, everything else is deep-copied
     (copy.deepcopy of an immutable scalar / function is the object itself).
@@ -184,6 +185,14 @@ def install(T: Theory, dataclass_pred=None):
             return v
         return {f.name: inner(obj.fields[f.name]) for f in obj.cls.all_fields()}
 
+    @T.ext('dataclasses.fields')
+    def _fields(interp, obj):
+        # assumed: fields(obj) yields one Field per declared dataclass field, in declaration order, with `.name`
+        ci = obj.cls if isinstance(obj, Obj) else (obj.info if isinstance(obj, ClassRef) else None)
+        if ci is None or not is_dataclass_cls(ci):
+            interp.raise_('TypeError', 'must be called with a dataclass type or instance')
+        return tuple(FieldV(f.name) for f in ci.all_fields())
+
     @T.ext('dataclasses.dataclass')
     def _dataclass(interp, *a, **k):
         if a and isinstance(a[0], ClassRef):
@@ -210,6 +219,18 @@ def install(T: Theory, dataclass_pred=None):
         trace(interp).append(RecordV('jax.debug.callback', (f,) + a, k))
         return None
     return T
+
+
+class FieldV(Value):
+    """a dataclasses.Field: only `.name` is modelled"""
+
+    def __init__(self, name):
+        self.name = name
+
+    def py_getattr(self, interp, name):
+        if name == 'name':
+            return self.name
+        raise Unsupported(f'dataclasses.Field.{name}')
 
 
 class AsDictOf(Value):
